@@ -25,6 +25,7 @@ type GenCfg struct {
 	Break      bool
 	NoWorld    bool
 	Wild       bool // C12: meaningless-but-valid constructs allowed
+	SavePct    int  // % of statement slots that hold a save with an arithmetic amount aimed at the balance floor (C01)
 }
 
 var DefaultAccounts = []string{"alice", "bob", "users:001", "bank-eu:fees", "treasury", "m_1"}
@@ -36,7 +37,7 @@ func FullCfg() GenCfg {
 
 // OverdrawCfg: few accounts, one dominant asset, several sends -> collisions on the same balances (C01).
 func OverdrawCfg() GenCfg {
-	return GenCfg{Accounts: []string{"alice", "bob", "users:001"}, Assets: []string{"USD", "EUR/2"}, MaxSends: 4, MaxDepth: 3, OtherStmts: true, Vars: true, HugePct: 4, NegBalPct: 15}
+	return GenCfg{Accounts: []string{"alice", "bob", "users:001"}, Assets: []string{"USD", "EUR/2"}, MaxSends: 4, MaxDepth: 3, OtherStmts: true, Vars: true, HugePct: 4, NegBalPct: 15, SavePct: 20}
 }
 
 // SingleCfg: one send, disjoint accounts per leaf (C03).
@@ -590,6 +591,9 @@ func Generate(r *vc.Rand, cfg GenCfg) *Case {
 		if cfg.OtherStmts && r.Chance(1, 6) {
 			g.otherStmt(asset)
 		}
+		if cfg.SavePct > 0 && i > 0 && r.Intn(100) < cfg.SavePct {
+			g.saveStmt(asset) // between two sends on the same few accounts
+		}
 		g.prog.Stmts = append(g.prog.Stmts, g.send(asset))
 	}
 	if cfg.OtherStmts {
@@ -626,6 +630,12 @@ func (g *gen) otherStmt(asset string) {
 		g.use("stmt_set_account_meta")
 		g.prog.Stmts = append(g.prog.Stmts, SetAccountMeta{Acc: g.accountExpr(), Key: vc.Pick(g.r, []string{"k1", "tier"}), Val: g.anyExpr()})
 	case 2:
+		g.saveStmt(asset)
+	}
+}
+
+func (g *gen) saveStmt(asset string) {
+	{
 		// save only from accounts that are a source of some send for this asset (else the statement is meaningless: C12 covers that)
 		acc := g.someSourceAccount(asset)
 		if g.cfg.Wild && g.r.Bool() {
@@ -646,7 +656,7 @@ func (g *gen) otherStmt(asset string) {
 					g.use("stmt_save_arithmetic")
 				}
 			}
-			if g.r.Chance(1, 12) { // a difference that comes out negative
+			if g.r.Chance(1, 12) || (g.cfg.SavePct > 0 && g.r.Intn(100) < 3*g.cfg.SavePct) { // a difference that comes out negative
 				a := g.amount()
 				mon = BinOp{'-', g.monetaryLit(asset, a), g.monetaryLit(asset, new(big.Int).Add(a, big.NewInt(int64(1+g.r.Intn(500)))))}
 				g.use("stmt_save_negative_difference")
